@@ -178,7 +178,10 @@ PROPS = {
         "trusted": ["md-5 crate as the reference MD5 (Md5.lean is compared against it through every hashed case and #guard-ed on the RFC 1321 vectors)"],
     },
     "C20": {
-        "runs": [{"profile": "c20", "n_quick": 300, "n_thorough": 6000, "nontrivial": "any", "exhaustive": True}],
+        "runs": [{"profile": "c20", "n_quick": 300, "n_thorough": 6000, "nontrivial": "any", "exhaustive": True},
+                 # the CLI's command template (engines.rs): argv of the engine process as started by the real
+                 # binary vs the model's five sequential replacements
+                 {"profile": "clitmpl", "kind": "cli", "n_quick": 60, "n_thorough": 1500, "nontrivial": "any"}],
         "observable": "the real ExternalDriver (connect / run x k / shutdown) against a scripted child process that writes each reply in exactly the scripted byte chunks (flush + pause between chunks) or closes / exits after a prefix: result of every call (rows with every cell | sql error text | failure | timeout after 1.5 s), the request lines the child received byte for byte (one JSON object per line), end-of-file seen by the child after shutdown; compared with the Lean model of the request encoder, the incremental JSON scanner and the decode loop",
         "exhaustive": True,
         "explanation": "exhaustive: every single cut point (thorough: every pair of cut points) of two replies containing 2-, 3- and 4-byte characters, \\uXXXX escapes and escaped quotes, and truncation + close/exit at every byte; random: 1..5 calls, replies with random optional whitespace, optional \\u escapes incl. surrogate pairs, unknown extra members, malformed / wrong-shape replies, 0..3 random cut points per reply, SQL with quotes, backslashes, newlines, control and multi-byte characters",
